@@ -77,6 +77,43 @@ class Ctx:
         return self.cache[key]
 
 
+def settle(mod, rep):
+    """Structural rules look at the shape of the code; where the same behaviour is also decided by a fold rule (the function folded over
+    every class of input the rule's claim is about, sa/peval.py), a structural rule that merely does not *recognise* a re-shaped function
+    must not raise an alarm.  A module lists such pairs in SUBORDINATE = {structural rule: fold rule} and describes its fold rules in
+    FOLDS = {rule: {"count": instance kind, "min": verdicts expected, "about": substrings naming its subjects in 'not folded' notes}}.
+    When the fold rule decided all of its worlds and reported nothing, findings and analysis errors of the subordinate rule become notes
+    (listed in the evidence under `stood_in`); in every other case they stand.  Returns the set of rules stood in for."""
+    folds = getattr(mod, "FOLDS", {})
+    sub = getattr(mod, "SUBORDINATE", {})
+    clean = {}
+    for r, d in folds.items():
+        skipped = [n for n in rep.notes if "not folded" in n and (not d.get("about") or any(a in n for a in d["about"]))]
+        clean[r] = rep.instances.get(d["count"], 0) >= d["min"] and not skipped and not any(f.rule == r for f in rep.findings) \
+            and r not in getattr(rep, "rule_errors", {})
+    stood_in = set()
+    kept = []
+    for f in rep.findings:
+        fr = sub.get(f.rule)
+        if fr is not None and clean.get(fr):
+            stood_in.add(f.rule)
+            rep.notes.append(f"{rep.prop}-{f.rule} does not recognise the shape of {f.where} ({str(f.construct)[:60]}): {f.reason[:160]} -- not reported: "
+                             f"{rep.prop}-{fr} folded this function over all of its worlds and found it behaving as the property says")
+        else:
+            kept.append(f)
+    rep.findings[:] = kept
+    for r, msg in list(getattr(rep, "rule_errors", {}).items()):
+        fr = sub.get(r)
+        if fr is not None and clean.get(fr):
+            stood_in.add(r)
+            rep.notes.append(f"{rep.prop}-{r} could not read the code ({msg[:200]}) -- not an analysis error: {rep.prop}-{fr} decided the behaviour")
+        else:
+            raise AnalysisError(msg)
+    if stood_in:
+        rep.extra["stood_in"] = {r: sub[r] for r in sorted(stood_in)}
+    return lambda rule: bool(sub.get(rule) and clean.get(sub[rule]))
+
+
 def run_property(pid: str, tier: str, only=None, root=None, selftest=True) -> Report:
     ctx = Ctx(tier, root)
     mod = importlib.import_module(f"sa.props.{pid.lower()}")
@@ -97,8 +134,9 @@ def run_property(pid: str, tier: str, only=None, root=None, selftest=True) -> Re
                     f"now behaves differently", f_.loc())
         if "SIG" not in rep.rules_run:
             rep.rules_run.append("SIG")
+    can_stand_in = settle(mod, rep)
     if not rep.findings:
-        rep.check_floors()  # anti-vacuity; a run that already reports findings is not a vacuous pass
+        rep.check_floors(stands_in=can_stand_in)  # anti-vacuity; a run that already reports findings is not a vacuous pass
     rep.extra["call_resolution"] = dict(ctx.world.call_stats)
     if ctx.world.unresolved_sites:
         rep.extra["unresolved_call_sites"] = sorted(set(ctx.world.unresolved_sites))[:40]
